@@ -288,15 +288,16 @@ def shrink(engine, prop, caseline, want, budget=400):
         for i in range(1, len(fields)):
             f = fields[i]
             cands = []
-            if "," in f:
-                items = f.split(",")
+            sep = ";" if ";" in f else ","
+            if sep in f:
+                items = f.split(sep)
                 # drop halves, then single items
                 h = len(items) // 2
                 if h >= 1:
-                    cands.append(",".join(items[:h]))
-                    cands.append(",".join(items[h:]))
+                    cands.append(sep.join(items[:h]))
+                    cands.append(sep.join(items[h:]))
                 for j in range(len(items)):
-                    cands.append(",".join(items[:j] + items[j + 1:]))
+                    cands.append(sep.join(items[:j] + items[j + 1:]))
             elif f.isdigit() and int(f) > 0:
                 cands += [str(int(f) // 2), str(int(f) - 1)]
             elif f not in ("-",) and not f.isdigit() and len(f) > 1 and "," not in f and re.fullmatch(r"[a-z]?[0-9a-f]+", f):
